@@ -1,6 +1,7 @@
 package main
 
 import (
+	"os"
 	"fmt"
 	"go/constant"
 	"go/token"
@@ -387,7 +388,7 @@ func (vc *VC) atCall(fr *Frame, st *State, pc string, short string, ord int, sit
 		return
 	}
 	for _, as := range fr.spec.Asserts {
-		if as.Callee != short || as.Ordinal != ord {
+		if as.Callee != short || (as.Ordinal != ord && as.Ordinal != -1) {
 			continue
 		}
 		if fr.matched == nil {
@@ -497,7 +498,7 @@ func (vc *VC) havocForCall(st, pre *State, env *Env, callee *ssa.Function, spec 
 			}
 			before := vc.heapGet(st, k)
 			nv := vc.havocKey(st, k, "hv")
-			if !ms.nonfresh[k] && strings.HasPrefix(before.Sort, "(Array Int ") {
+			if !ms.nonfresh[k] && strings.HasPrefix(before.Sort, "(Array Int ") && os.Getenv("VERIF_NO_FRESHFRAME") == "" {
 				// the callee writes this key only at objects it allocates itself: older objects keep their value
 				vc.emit(fmt.Sprintf("(assert (forall ((r Int)) (! (=> (< (rootof r) %s) (= (select %s r) (select %s r))) :pattern ((select %s r)))))", old.S, nv, before.S, nv))
 			}
@@ -996,7 +997,16 @@ func (vc *VC) scratch(f func()) {
 		savedLits[k] = v
 	}
 	nobs := len(vc.obs)
+	savedOld := vc.oldAt
+	vc.oldAt = map[string]map[string]bool{}
+	for k, m := range savedOld {
+		vc.oldAt[k] = map[string]bool{}
+		for f := range m {
+			vc.oldAt[k][f] = true
+		}
+	}
 	f()
+	vc.oldAt = savedOld
 	vc.script = vc.script[:n]
 	vc.nfresh = nf
 	vc.declared = saved
